@@ -5,7 +5,8 @@
    destination kind.  [None] = the program is not well-defined at this point. *)
 From Coq Require Import ZArith List Bool.
 From MirV Require Import Base.W64 Mir.Opcode Mir.Syntax Mir.Sem.
-From MirV Require Mir.DocSpecFloat.
+From MirV Require Mir.DocSpecFloat Mir.DocSpecLD.
+From Flocq Require IEEE754.Binary IEEE754.BinarySingleNaN.
 Import ListNotations.
 Local Open Scope Z_scope.
 
@@ -106,10 +107,50 @@ Definition int_ovf (o : opcode) (xs : list Z) : option (option bool * option boo
    conversions; FP -> int is undefined when the truncated value is not an int64. *)
 Definition fp_kind (k : kind) : bool := match k with KF | KD => true | _ => false end.
 
+(* long double (x87 80-bit patterns): conversions = b-c02's Mir/DocSpecLD.v; arithmetic on FINITE operands =
+   the exact result rounded once to nearest even by Flocq's binary_normalize (64-bit significand: the x87's
+   default precision and what the interpreter's C `long double` computes); infinities / NaN operands: not given
+   a meaning (None).  Sign of an exact zero result: +0 for sums unless both operands are -0, xor for products. *)
+Definition ld_fin (z : Z) : option (bool * Z * Z) :=      (* sign, significand >= 0, exponent *)
+  match DocSpecLD.ld_decode z with
+  | DocSpecLD.LDnum (Binary.B754_zero _ _ sg) => Some (sg, 0, 0)
+  | DocSpecLD.LDnum (Binary.B754_finite _ _ sg m e _) => Some (sg, Zpos m, e)
+  | _ => None
+  end.
+
+Definition ld_add (x y : bool * Z * Z) : Z :=
+  let '(sx, mx, ex) := x in let '(sy, my, ey) := y in
+  let e := Z.min ex ey in
+  let m := (if sx then - mx else mx) * 2 ^ (ex - e) + (if sy then - my else my) * 2 ^ (ey - e) in
+  DocSpecLD.ld_encode (DocSpecLD.norm80 m e (sx && sy && (mx =? 0) && (my =? 0))).
+
+Definition ld_val (o : opcode) (xs : list Z) : option Z :=
+  match o, xs with
+  | LDNEG, [a] => match ld_fin a with
+                  | Some _ => Some (if Z.testbit a 79 then a - 2 ^ 79 else a + 2 ^ 79)
+                  | None => None
+                  end
+  | LDADD, [a; b] => match ld_fin a, ld_fin b with
+                     | Some x, Some y => Some (ld_add x y)
+                     | _, _ => None
+                     end
+  | LDSUB, [a; b] => match ld_fin a, ld_fin b with
+                     | Some x, Some (sy, my, ey) => Some (ld_add x (negb sy, my, ey))
+                     | _, _ => None
+                     end
+  | LDMUL, [a; b] => match ld_fin a, ld_fin b with
+                     | Some (sx, mx, ex), Some (sy, my, ey) =>
+                         let sg := xorb sx sy in
+                         Some (DocSpecLD.ld_encode (DocSpecLD.norm80 ((if sg then -1 else 1) * (mx * my)) (ex + ey) sg))
+                     | _, _ => None
+                     end
+  | _, _ => DocSpecLD.doc_sem_ld o xs
+  end.
+
 Definition mir_val (o : opcode) (xs : list Z) : option Z :=
   match val_op o with
   | Some (ks, kd) => if fp_kind ks || fp_kind kd then DocSpecFloat.doc_sem_float o xs else int_val o xs
-  | None => None
+  | None => ld_val o xs
   end.
 
 Definition mir_br (o : opcode) (xs : list Z) : option bool :=
